@@ -608,124 +608,117 @@ func isRingHelper(fn *types.Func) bool {
 	return strings.HasPrefix(fn.Name(), "ring") || fn.Name() == "containsPointSearcher"
 }
 
-// ruleB1Searcher: the parity accumulator of point-in-ring.
+// ruleB1Searcher: the parity accumulator of point-in-ring, judged by what it
+// does for every outcome of the ray cast (the function is run abstractly
+// with Raycast as an opaque atom): 'on' => result = allowOnEdge, the index
+// of the edge is reported and the scan stops; 'in' => the parity toggles and
+// the scan goes on; otherwise nothing changes.
 func (p *Program) ruleB1Searcher(c *Check) {
 	raycast := p.Method("geometry", "Segment", "Raycast")
 	n := 0
 	for _, fnode := range p.repoFuncNodes() {
-		if fnode.pkg != p.Geom {
+		if fnode.pkg != p.Geom || raycast == nil {
 			continue
 		}
 		info := fnode.pkg.TypesInfo
-		// functions with a *bool parameter that call Raycast
-		var boolPtr types.Object
-		var flag types.Object
+		var boolPtr, flag, idxPtr types.Object
+		var boolPtrIdx, flagIdx int
+		i := 0
 		for _, f := range fnode.fd.Type.Params.List {
 			t := info.TypeOf(f.Type)
 			for _, nm := range f.Names {
 				if pt, ok := t.(*types.Pointer); ok {
-					if b, ok := pt.Elem().(*types.Basic); ok && b.Kind() == types.Bool {
-						boolPtr = info.Defs[nm]
-					}
-				}
-				if b, ok := t.(*types.Basic); ok && b.Kind() == types.Bool {
-					flag = info.Defs[nm]
-				}
-			}
-		}
-		if boolPtr == nil {
-			continue
-		}
-		calls := false
-		var resObj types.Object
-		ast.Inspect(fnode.fd.Body, func(m ast.Node) bool {
-			if as, ok := m.(*ast.AssignStmt); ok && len(as.Rhs) == 1 && len(as.Lhs) == 1 {
-				if call, ok := as.Rhs[0].(*ast.CallExpr); ok {
-					if callee, _ := typeutil.Callee(info, call).(*types.Func); callee == raycast && raycast != nil {
-						calls = true
-						if id, ok := as.Lhs[0].(*ast.Ident); ok {
-							resObj = info.Defs[id]
+					if b, ok := pt.Elem().(*types.Basic); ok {
+						if b.Kind() == types.Bool {
+							boolPtr, boolPtrIdx = info.Defs[nm], i
+						} else if b.Info()&types.IsInteger != 0 {
+							idxPtr = info.Defs[nm]
 						}
 					}
 				}
+				if b, ok := t.(*types.Basic); ok && b.Kind() == types.Bool {
+					flag, flagIdx = info.Defs[nm], i
+				}
+				i++
 			}
-			return true
+		}
+		if boolPtr == nil || flag == nil {
+			continue
+		}
+		calls := mentions(fnode.fd.Body, func(m ast.Node) bool {
+			call, ok := m.(*ast.CallExpr)
+			if !ok {
+				return false
+			}
+			callee, _ := typeutil.Callee(info, call).(*types.Func)
+			return callee == raycast
 		})
 		if !calls {
 			continue
 		}
 		n++
+		_ = idxPtr
 		fname := FuncName(fnode.fn)
-		var onStore, inStore bool
-		var bad []string
-		var walk func(stmts []ast.Stmt, cond string)
-		walk = func(stmts []ast.Stmt, cond string) {
-			for _, st := range stmts {
-				switch s := st.(type) {
-				case *ast.IfStmt:
-					cnd := ""
-					if sel, ok := ast.Unparen(s.Cond).(*ast.SelectorExpr); ok {
-						if id, ok := sel.X.(*ast.Ident); ok && resObj != nil && info.Uses[id] == resObj {
-							cnd = sel.Sel.Name
-						}
+		inName, flagName := fmt.Sprintf("p%d", boolPtrIdx), fmt.Sprintf("p%d", flagIdx)
+		row := &e8row{id: fname, fn: fnode.fn, opaque: map[*types.Func]bool{raycast: true},
+			what: "ray-cast accumulator: on the boundary the result is the allowOnEdge flag and the scan stops; a crossing toggles the parity and the scan continues; otherwise nothing changes",
+			spec: func(a *e8assign, n *e8names, out *e8out) string {
+				var onB, inB string
+				for _, b := range n.bools {
+					if strings.HasPrefix(b, "Raycast(") && strings.HasSuffix(b, ".On") {
+						onB = b
 					}
-					walk(s.Body.List, cnd)
-					if s.Else != nil {
-						if b, ok := s.Else.(*ast.BlockStmt); ok {
-							walk(b.List, "")
-						}
-					}
-				case *ast.AssignStmt:
-					if len(s.Lhs) != 1 {
-						continue
-					}
-					st, ok := s.Lhs[0].(*ast.StarExpr)
-					if !ok {
-						continue
-					}
-					id, ok := st.X.(*ast.Ident)
-					if !ok || info.Uses[id] != boolPtr {
-						continue
-					}
-					rhs := ast.Unparen(s.Rhs[0])
-					switch {
-					case cond == "On":
-						if rid, ok := rhs.(*ast.Ident); ok && flag != nil && info.Uses[rid] == flag {
-							onStore = true
-						} else {
-							bad = append(bad, "on the boundary the result must be the allowOnEdge flag, found "+types.ExprString(rhs))
-						}
-					case cond == "In":
-						good := false
-						if u, ok := rhs.(*ast.UnaryExpr); ok && u.Op == token.NOT {
-							if s2, ok := ast.Unparen(u.X).(*ast.StarExpr); ok {
-								if id2, ok := s2.X.(*ast.Ident); ok && info.Uses[id2] == boolPtr {
-									good = true
-								}
-							}
-						}
-						if good {
-							inStore = true
-						} else {
-							bad = append(bad, "a crossing must toggle the parity, found "+types.ExprString(rhs))
-						}
-					default:
-						bad = append(bad, "the parity flag is written outside the On/In cases of the ray cast")
+					if strings.HasPrefix(b, "Raycast(") && strings.HasSuffix(b, ".In") {
+						inB = b
 					}
 				}
-			}
-		}
-		walk(fnode.fd.Body.List, "")
-		if len(bad) == 0 && onStore && inStore {
-			c.OK("E2.B1p", fname, p.declPos(fnode.fn), "On => result = allowOnEdge; In => parity toggles; nothing else writes the result")
-		} else {
-			if !onStore {
-				bad = append(bad, "no store of allowOnEdge under res.On")
-			}
-			if !inStore {
-				bad = append(bad, "no parity toggle under res.In")
-			}
-			c.Bad("E2.B1p", fname, p.declPos(fnode.fn), "point-in-ring accumulator: "+strings.Join(bad, "; "))
+				if onB == "" || inB == "" {
+					return "the On/In results of the ray cast are not both consulted"
+				}
+				cont, ok := retBool(out)
+				if !ok {
+					return "the accumulator does not return whether to continue"
+				}
+				res := out.fr.vars[boolPtr]
+				if res == nil || res.k != kBool {
+					return "the result flag is not a boolean"
+				}
+				now := res.b
+				if res.name != "" {
+					now = a.B(res.name)
+				}
+				before, flagV := a.B(inName), a.B(flagName)
+				switch {
+				case a.B(onB):
+					if now != flagV {
+						return "on the boundary the result is not the allowOnEdge flag"
+					}
+					if cont {
+						return "the scan continues after a boundary hit (later crossings would toggle the result)"
+					}
+				case a.B(inB):
+					if now != !before {
+						return "a crossing does not toggle the parity"
+					}
+					if !cont {
+						return "the scan stops after a crossing"
+					}
+				default:
+					if now != before {
+						return "the parity changes without a crossing"
+					}
+					if !cont {
+						return "the scan stops although nothing was hit"
+					}
+				}
+				return ""
+			}}
+		// the result flag is read through the pointer: make sure both booleans are enumerated
+		row.atoms = nil
+		before := len(c.Obs)
+		p.runE8(c, row)
+		for _, o := range c.Obs[before:] {
+			o.Rule = "E2.B1p"
 		}
 	}
 	c.Floor("E2.B1p", n, 1, "ray-cast parity accumulators")
